@@ -250,6 +250,63 @@ def dress_call(ctx, fname, form, fn, ref, inputs, tol=1e-12, detail=None):
     return r
 
 
+# ------------------------------------------------------------------ result aliasing across calls (keep-and-recheck / scribble / shares_memory)
+def _arrays_of(r):
+    """all ndarrays reachable from a result: arrays, tuples/lists of arrays, MarkovChain-like objects (P, state_values)"""
+    if isinstance(r, np.ndarray):
+        return [r]
+    if isinstance(r, (tuple, list)):
+        return [a for x in r for a in _arrays_of(x)]
+    if hasattr(r, "P") and hasattr(r, "state_values"):
+        return [a for a in (r.P, r.state_values) if isinstance(a, np.ndarray)]
+    return []
+
+
+def _same(a, b):
+    return a.shape == b.shape and bool(np.array_equal(a, b, equal_nan=True) if a.dtype.kind not in "fc" else np.allclose(a, b, rtol=1e-13, atol=1e-300, equal_nan=True))
+
+
+def alias_probe(ctx, fname, label, call, others=(), make=None, guards=(), inp=None):
+    """call(obj) -> result; make() -> fresh object with equal parameters (None for plain functions); others: closures making LATER calls with
+    the same shapes but different inputs (buffers are usually cached per shape); guards: closures returning arrays (attributes / arguments)
+    that must be unchanged and must not share memory with results."""
+    inp = dict(inp or {}, function=fname, aliasing=label)
+    ctx.count("alias:" + fname); ctx.case(("alias", fname, label, json.dumps(jsonable(inp), sort_keys=True)[:300]), nontrivial=True)
+    try:
+        with warnings.catch_warnings():
+            warnings.simplefilter("ignore")
+            obj = make() if make else None
+            g0 = [np.array(g(obj), copy=True) for g in guards]
+            r1 = _arrays_of(call(obj)); c1 = [np.array(a, copy=True) for a in r1]
+            for oc in others:
+                oc(obj)
+            r2 = _arrays_of(call(obj))
+            if not (len(r1) == len(r2) and all(_same(a, c) for a, c in zip(r2, c1))):
+                ctx.fail("result_changes_on_repeat", "%s (%s): a repeated call returns different values" % (fname, label), inp, [a.ravel()[:4].tolist() for a in r2][:2], [a.ravel()[:4].tolist() for a in c1][:2])
+            if not all(_same(a, c) for a, c in zip(r1, c1)):
+                ctx.fail("result_overwritten_by_later_call", "%s (%s): an array returned earlier was changed by later calls" % (fname, label), inp,
+                         [a.ravel()[:4].tolist() for a in r1][:2], [a.ravel()[:4].tolist() for a in c1][:2])
+            if any(np.shares_memory(a, b) for a in r1 for b in r2):
+                ctx.fail("results_alias_each_other", "%s (%s): results of two calls share memory" % (fname, label), inp, None, None)
+            garr = [g(obj) for g in guards]
+            if any(isinstance(g, np.ndarray) and np.shares_memory(a, g) for a in r1 + r2 for g in garr):
+                ctx.fail("result_aliases_internal_state", "%s (%s): a result shares memory with an argument / stored attribute" % (fname, label), inp, None, None)
+            # scribble over everything that was returned, then ask again (same object and a fresh one)
+            for a in r1 + r2:
+                if a.flags.writeable:
+                    a[...] = (-7 if a.dtype.kind in "iu" else -12345.678)
+            if not all(_same(np.asarray(g(obj)), s) for g, s in zip(guards, g0)):
+                ctx.fail("result_aliases_internal_state", "%s (%s): editing a returned array in place changed an argument / stored attribute" % (fname, label), inp, None, None)
+            r3 = _arrays_of(call(obj))
+            r4 = _arrays_of(call(make())) if make else r3
+            for tag, rr in (("the same object", r3), ("a fresh object with equal parameters", r4)):
+                if not (len(rr) == len(c1) and all(_same(a, c) for a, c in zip(rr, c1))):
+                    ctx.fail("result_aliases_internal_state", "%s (%s): after the caller edited a returned array in place, a later call on %s returns corrupted values" % (fname, label, tag),
+                             inp, [a.ravel()[:4].tolist() for a in rr][:2], [a.ravel()[:4].tolist() for a in c1][:2])
+    except Exception as e:      # noqa
+        ctx.fail("raises_on_admissible_input", "%s (%s) raised %s during the aliasing probe: %s" % (fname, label, type(e).__name__, str(e)[:150]), inp, type(e).__name__, "a value")
+
+
 def guarded(ctx, inp, fn):
     """run the implementation; an exception on an admissible input is itself a violation"""
     try:
@@ -888,6 +945,51 @@ def run(ctx):
         if not np.array_equal(arr, snap, equal_nan=True):
             ctx.fail("result_changed_later", "an array returned earlier by %s was modified by later calls" % name, {"function": name}, None, None)
 
+    # ================= result aliasing across calls: every entry point that returns arrays
+    for rep in range(6 if thorough else 3):
+        nA = rng.choice([3, 8, 21])
+        ya = np.array([rng.randrange(1, 20) / 2.0 for _ in range(nA)]); yb = np.array([rng.randrange(1, 20) / 2.0 for _ in range(nA)])
+        alias_probe(ctx, "lorenz_curve", "same length, other sample in between", lambda o: lorenz_curve(ya), others=[lambda o: lorenz_curve(yb)],
+                    guards=[lambda o: ya], inp={"y": ya.tolist(), "y_other": yb.tolist()})
+        xq = np.array([1.0, 4.5, 7.0])
+        alias_probe(ctx, "ECDF", "__call__", lambda o: o(xq), make=lambda: ECDF(ya.copy()), others=[lambda o: o(xq + 1.0), lambda o: ECDF(yb)(xq)],
+                    guards=[lambda o: o.observations, lambda o: xq], inp={"obs": ya.tolist(), "x": xq.tolist()})
+        nb, aa, bb_ = rng.randrange(1, 40), rng.randrange(3, 200) / 8.0, rng.randrange(3, 200) / 8.0
+        alias_probe(ctx, "BetaBinomial", "pdf", lambda o: o.pdf(), make=lambda: BetaBinomial(nb, aa, bb_),
+                    others=[lambda o: BetaBinomial(nb, aa + 0.5, bb_).pdf(), lambda o: (o.mean, o.var, o.skew)], inp={"n": nb, "a": aa, "b": bb_})
+        # the pdf handed out after an in-place edit must still agree with mean / var of the object (moments of the pdf)
+        d = BetaBinomial(nb, aa, bb_); pz = d.pdf(); pz *= 3.0; p2 = BetaBinomial(nb, aa, bb_).pdf(); kk = np.arange(nb + 1)
+        if abs(p2.sum() - 1) > 1e-10 or abs((kk * p2).sum() - d.mean) > 1e-9 * (1 + d.mean):
+            ctx.fail("result_aliases_internal_state", "BetaBinomial.pdf() of a second object is corrupted after the caller scaled an earlier pdf vector in place",
+                     {"function": "BetaBinomial", "n": nb, "a": aa, "b": bb_, "aliasing": "p = d.pdf(); p *= 3; BetaBinomial(n,a,b).pdf()"}, [float(p2.sum()), float((kk * p2).sum())], [1.0, float(d.mean)])
+        with warnings.catch_warnings():
+            warnings.simplefilter("ignore")
+            p_, q_ = rng.randrange(1, 4), rng.randrange(1, 4)
+            ph = [-c for c in stable_poly(rng, p_)]; th = stable_poly(rng, q_); ph2 = [-c for c in stable_poly(rng, p_)]
+            pa, ta = np.array(ph), np.array(th)
+            mk = lambda: ARMA(pa, ta, 1.5)
+            gd = [lambda o: o.ma_poly, lambda o: o.ar_poly, lambda o: pa, lambda o: ta]
+            oth = [lambda o: ARMA(ph2, th, 0.5).impulse_response(9), lambda o: ARMA(ph2, th, 0.5).autocovariance(5), lambda o: ARMA(ph2, th, 0.5).spectral_density(res=16),
+                   lambda o: ARMA(ph2, th, 0.5).simulation(7, random_state=3)]
+            ai = {"phi": ph, "theta": th, "sigma": 1.5}
+            alias_probe(ctx, "ARMA", "impulse_response", lambda o: o.impulse_response(9), make=mk, others=oth, guards=gd, inp=ai)
+            alias_probe(ctx, "ARMA", "spectral_density", lambda o: o.spectral_density(res=16), make=mk, others=oth, guards=gd, inp=ai)
+            alias_probe(ctx, "ARMA", "autocovariance", lambda o: o.autocovariance(5), make=mk, others=oth, guards=gd, inp=ai)
+            alias_probe(ctx, "ARMA", "simulation", lambda o: o.simulation(7, random_state=11), make=mk, others=oth, guards=gd, inp=ai)
+            alias_probe(ctx, "ARMA", "ma_poly/ar_poly of two objects", lambda o: (o.ma_poly.copy(), o.ar_poly.copy()), make=mk,
+                        others=[lambda o: ARMA(ph2, th, 0.5)], guards=[lambda o: pa, lambda o: ta], inp=ai)
+            o1, o2 = mk(), mk()
+            if np.shares_memory(o1.ma_poly, o2.ma_poly) or np.shares_memory(o1.ar_poly, o2.ar_poly) or np.shares_memory(o1.ar_poly, pa) or np.shares_memory(o1.ma_poly, ta):
+                ctx.fail("result_aliases_internal_state", "ARMA polynomials of two objects / of the caller's parameter arrays share memory", dict(ai, function="ARMA", aliasing="ma_poly/ar_poly"), None, None)
+        Th = rng.choice([20, 33]); yh = np.array([rng.randrange(0, 64) / 4.0 for _ in range(Th)]); yh2 = np.array([rng.randrange(0, 64) / 4.0 for _ in range(Th)])
+        for (hh, pp) in ((2, 3), (4, None), (1, 0)):
+            alias_probe(ctx, "hamilton_filter", "h=%s,p=%s" % (hh, pp), lambda o: hamilton_filter(yh, hh, pp), others=[lambda o: hamilton_filter(yh2, hh, pp)],
+                        guards=[lambda o: yh], inp={"y": yh.tolist(), "h": hh, "p": pp})
+        for (wd, wl) in ((None, 7), ("hanning", 7), ("flat", 3)):
+            alias_probe(ctx, "periodogram", "window=%s" % wd, lambda o: periodogram(yh, wd, wl), others=[lambda o: periodogram(yh2, wd, wl)],
+                        guards=[lambda o: yh], inp={"x": yh.tolist(), "window": wd, "window_len": wl})
+        alias_probe(ctx, "ar_periodogram", "defaults", lambda o: ar_periodogram(yh), others=[lambda o: ar_periodogram(yh2)], guards=[lambda o: yh], inp={"x": yh.tolist()})
+
 
 def replay(data):
     """Re-run the first recorded failing input against the current implementation and print the oracle's verdict."""
@@ -942,6 +1044,15 @@ def replay(data):
         from quantecon._ecdf import ECDF
         v = float(ECDF(inp["obs"])(inp["x"])); k = sum(1 for o in inp["obs"] if o <= inp["x"]) / len(inp["obs"])
         print("ECDF(x) =", v, " fraction <= x =", k, " verdict:", "OK" if v == k else "VIOLATED")
+    elif fn == "BetaBinomial" and inp.get("aliasing"):
+        from quantecon.distributions import BetaBinomial
+        n, a, b = inp["n"], float(Fraction(str(inp["a"]))), float(Fraction(str(inp["b"])))
+        d = BetaBinomial(n, a, b); p = d.pdf(); q = d.pdf(); ref = p.copy()
+        print("two calls share memory:", bool(np.shares_memory(p, q)))
+        p *= 3.0
+        p2 = BetaBinomial(n, a, b).pdf(); k = np.arange(n + 1)
+        print("after p = d.pdf(); p *= 3: a fresh BetaBinomial(n,a,b).pdf() sums to", float(p2.sum()), " first moment", float((k * p2).sum()), " mean", d.mean)
+        print("verdict:", "OK" if np.allclose(p2, ref) and not np.shares_memory(p, q) else "VIOLATED")
     elif fn == "BetaBinomial":
         from quantecon.distributions import BetaBinomial
         d = BetaBinomial(inp["n"], float(Fraction(inp["a"])), float(Fraction(inp["b"])))
